@@ -707,6 +707,33 @@ def check_c13(pid, tier, seed, rep):
                                                        wire_signature=r.get("wire_sig"), kessoku_signature=r.get("kessoku_sig"),
                                                        how="<package_dir>_w: wire gen; <package_dir>_k: kessoku migrate && kessoku kessoku.go; run both drivers on scen.json"),
                           "%s: %s" % (r["name"], probs[0][:300]))
+    # model (coq/Wire.v) vs the terms both real injectors returned
+    cases, meta = stage_w.coq_cases(W)
+    mism = []
+    if cases:
+        path = os.path.join(vlib.scratch(), "cases_wire.v")
+        with open(path, "w") as f:
+            f.write("From Coq Require Import List NArith. Import ListNotations.\nRequire Import Wire.\n")
+            f.write("Definition cases : list (nat * (wcfg * list N * N * term * term)) := [\n" + ";\n".join(cases) + "].\n")
+            f.write("Definition M := Eval vm_compute in wire_mismatches cases.\nPrint M.\n")
+        rc, out = vlib.coqc_file(path, timeout=900)
+        m = re.search(r"M\s*=\s*\[(.*?)\]\s*:\s*list \(nat \* nat\)", out, re.S)
+        if rc != 0 or not m:
+            rep.violation("corr-coq", dict(log=out[-2500:]), "migration correspondence cases do not evaluate in Coq", True)
+        else:
+            mism = [(int(a), int(b)) for a, b in re.findall(r"\((\d+),\s*(\d+)\)", m.group(1))]
+    unexpr = [x for x in meta if x[3]]
+    if (mism or unexpr) and not nviol:
+        if mism:
+            i, side = mism[0]
+            mm = [x for x in meta if x[0] == i][0]
+            what = "model of %s differs from the real injector's result" % ("wire's resolution" if side == 1 else "kessoku's resolution of the migrated declarations")
+            rep.violation("corr-%s-%s" % (mm[1], mm[2]), dict(correspondence="coq/Wire.v: wire_mismatches", case=cases[i][:3000], side=side, disagreeing=len(mism)),
+                          "%s on %d case(s), e.g. %s %s" % (what, len(mism), mm[1], mm[2]), True)
+        else:
+            rep.violation("corr-unexpressible", dict(cases=unexpr[:5]), "observed results cannot be expressed in the model: %s" % (unexpr[0][3],), True)
+    cov["model_cases"] = len(cases)
+    cov["correspondence_disagreements"] = len(mism)
     migrate_known(pid, rep)
     if rejected > len(W["records"]) // 2:
         rep.violation("harness", dict(rejected=rejected), "wire rejects most generated configurations: the harness no longer exercises the property", True)
